@@ -51,6 +51,16 @@ theorem C01_scalar_fast_path_unobservable (ov : Option Bool) (ae : Bool) (f : Li
       (if ae then escapeHtml (fmt (.scalar f)) else fmt (.scalar f)) := by
   cases ae <;> simp [sinkBytes, isSafe, fmtT, fmt, erase_tagAll, escape_id_on_scalars f h]
 
+/-- The model's `isSafe` is `Value::is_safe` as the source has it now: a string answers its
+kind; for every other kind the answer is read off the generated list of the kinds for which the
+Rust `match` answers `false` (re-checked on every run: if `is_safe` changes for some kind, this
+stops checking). -/
+theorem isSafe_matches_source (v : TVal) :
+    isSafe v = (match v with
+      | .str s _ => s
+      | v => (kindNames v).all (fun k => !Generated.unsafeKinds.contains k)) := by
+  cases v <;> first | rfl | decide +kernel
+
 /-! ## The invariant of the machine -/
 
 /-- **Safe strings are clean.**  Start the machine, with autoescape on, in any state in which
@@ -66,6 +76,23 @@ theorem safe_invariant (env : Env) (p : Prog) (st st' : St)
     (hclean : p.clean env.override = true) (h0 : SafeInv st)
     (hrun : run env true p st = .ok st') : SafeInv st' :=
   run_preserves (hyp_notRaw env) p true st st' (Or.inr ⟨rfl, rfl, hclean⟩) (litsOk_any p) h0 hrun
+
+/-- **… at every point of a run.**  Split a clean program anywhere at top level: the state the
+machine is in at the split point exists and satisfies the invariant too (and nested runs — loop
+bodies, component bodies and definitions, includes, `super()` — are themselves runs of clean
+programs from invariant states, which is how `safe_invariant` is proved). -/
+theorem safe_invariant_every_prefix (env : Env) (p q : Prog) (st st' : St)
+    (hclean : (p.append q).clean env.override = true) (h0 : SafeInv st)
+    (hrun : run env true (p.append q) st = .ok st') :
+    ∃ mid, run env true p st = .ok mid ∧ SafeInv mid ∧ run env true q mid = .ok st' ∧ SafeInv st' := by
+  rw [clean_append, Bool.and_eq_true] at hclean
+  rw [run_append] at hrun
+  cases hp : run env true p st with
+  | error e => rw [hp] at hrun; cases hrun
+  | ok mid =>
+    rw [hp] at hrun
+    have hmid := safe_invariant env p st mid hclean.1 h0 hp
+    exact ⟨mid, rfl, hmid, hrun, safe_invariant env q mid st' hclean.2 hmid hrun⟩
 
 /-- **No raw byte reaches an autoescaped output.**  Autoescape on for the rendered template and
 for every template reachable by include (by flag or by override), no `safe`, a context without
@@ -129,6 +156,32 @@ theorem C01_no_special_chars (ov : Option Bool) (rootAe : Bool) (p : Prog)
     | esc => exact absurd ht h1.1
     | scalar => exact absurd ht h1.2
     | raw => exact absurd ht h2
+  · cases h
+
+/-- **The scalar fast path cannot be observed with the default escaper, for whole renders.**
+Whatever the program (with or without `safe`, autoescape on or off), every byte the sinks wrote by
+the fast path for bool / number values is a fixed point of `escape_html`; so sending those bytes
+through the escaper as well — what the property's first sentence literally asks for — would
+produce exactly the same output. -/
+theorem C01_default_escaper_full (ov : Option Bool) (rootAe : Bool) (p : Prog)
+    (ctx : List (String × TVal)) (out : TStr) (hl : p.litsOk scalarText = true)
+    (hctx : ctxClean ctx = true)
+    (h : render { escape := escapeHtml, override := ov } rootAe p ctx = .ok out) :
+    escapeScalarBytes out = erase out := by
+  unfold render at h
+  split at h
+  · rename_i st hrun
+    cases h
+    have h0 : St.all everyString scalarTagOk scalarText { parent := ctx } = true := by
+      apply all_freshParent
+      intro e he
+      simp only [ctxClean, List.all_eq_true, Bool.and_eq_true] at hctx
+      refine all_mono (fun tb h => ?_) (fun _ h => h) e.2 (hctx e he).2
+      simp only [beq_iff_eq] at h
+      simp [scalarTagOk, h]
+    have := run_preserves (hyp_scalarTagOk _) p _ _ st (Or.inl ⟨fun _ => rfl, rfl⟩) hl h0 hrun
+    have hout := ((St.all_iff st).1 this).2.2.2.2
+    exact escapeScalarBytes_eq st.out hout
   · cases h
 
 /-! ## Bypasses, and no double escaping -/
